@@ -177,6 +177,12 @@ def run(ctx):
         names = r.sample(["chr1", "chr2", "chr10", "chr1_alt", "chrX", "chrUn_1"], nchrom)
         sizes = {n: r.randint(1, maxsize) for n in names}
         genome = bnp.Genome.from_dict(sizes)
+        if r.random() < 0.3 and any("_" not in n for n in names):
+            # contigs with '_' in the size table that the genome ignores: they are not part of any array (their sizes must not leak into lengths or reductions)
+            from bionumpy.genomic_data.genome_context import ignore_underscores
+            genome = bnp.Genome.from_dict(sizes, filter_function=ignore_underscores)
+            names = [n for n in names if "_" not in n]
+            ctx.count("genomes_with_ignored_contigs")
         kinds = [r.choice(["int", "float", "bool", "int"]) for _ in range(r.randint(1, 3))]
         tracks, denses, recs_all = [], [], []
         for kind in kinds:
@@ -188,7 +194,19 @@ def run(ctx):
                 # boolean arrays come from interval sets (mask); add overlapping/duplicate intervals freely
                 iv = [(n, s, e) for n, s, e, v in flat]
                 extra = [(n, s, e) for (n, s, e) in iv if r.random() < 0.3]
-                iv2 = sorted(iv + extra, key=lambda t: (names.index(t[0]), t[1]))
+                # intervals sharing a start with another one but ending elsewhere (listed after it), nested and overhanging ones
+                for (n, s, e) in list(iv):
+                    if r.random() < 0.25:
+                        extra.append((n, s, r.randint(s + 1, sizes[n])))
+                    if r.random() < 0.1:
+                        a = r.randint(0, sizes[n] - 1)
+                        extra.append((n, a, r.randint(a + 1, sizes[n])))
+                for n in names:
+                    d[n] = np.zeros(sizes[n], dtype=bool)
+                for (n, s, e) in iv + extra:
+                    d[n][s:e] = True
+                iv2 = sorted(iv, key=lambda t: (names.index(t[0]), t[1])) + extra
+                iv2.sort(key=lambda t: (names.index(t[0]), t[1]))      # stable: among equal starts the later-listed (often longer) ones stay later
                 if r.random() < 0.5:
                     r.shuffle(iv2)          # interval sets need not be sorted or grouped by chromosome
                 mk_iv = lambda rows: Interval([x[0] for x in rows], np.array([x[1] for x in rows], dtype=int), np.array([x[2] for x in rows], dtype=int))
